@@ -17,7 +17,7 @@ for id in $ids; do
   PYTHONPATH="$WT" timeout 600 /venv/bin/python "demo_$id.py" >/dev/null 2>&1; clean=$?
   git apply "$d/patch.diff"
   PYTHONPATH="$WT" timeout 600 /venv/bin/python "demo_$id.py" >/dev/null 2>&1; broken=$?
-  tests=$(PYTHONPATH="$WT" /venv/bin/python -m pytest -q -p no:cacheprovider --timeout=900 -q --deselect tests/test_export_ontology.py 2>&1 | tail -1)
+  tests=$(PYTHONPATH="$WT" /venv/bin/python -m pytest -q -p no:cacheprovider --timeout=900 --deselect tests/test_export_ontology.py 2>&1 | tail -1)
   git apply -R "$d/patch.diff"
   echo "{\"id\":\"$id\",\"applies\":true,\"demo_exit_without_change\":$clean,\"demo_exit_with_change\":$broken,\"tests_with_change\":\"$tests\"}" > "$d/verify.json"
   echo "$id: demo clean=$clean broken=$broken tests: $tests"
